@@ -436,6 +436,14 @@ pub fn build(
                 .flatten())
             .unwrap_or(semantic.type_registry.pointer_size());
 
+        // The alignment must be something the target can realise (`repr(align(N))`
+        // only accepts powers of two).
+        if !alignment.is_power_of_two() {
+            anyhow::bail!(
+                "alignment {alignment} of type `{resolvee_path}` is not a power of two"
+            );
+        }
+
         // Calculate the minimum required alignment.
         let required_alignment = util::lcm(
             regions
